@@ -11,6 +11,8 @@ CONSTANTS
   CRProg <- QA_CR
   Forms = {"fresh"}
   Colls = {}
+  LAs <- NoLA_QA
+  DropOn = FALSE
   QuitOn = FALSE
   QuitDeferred = FALSE
   DefCap = 0
